@@ -1242,4 +1242,10 @@ theorem efjc_distance_hasDerivAt_aux (f Lp Lc St kT : ℝ) (hf : 0 < f) (hLp : 0
 
 end ext
 
+/-- without inversion values every point is paired with the empty row -/
+theorem withSols_nil {α : Type} (xs : List α) : withSols xs [] = xs.map fun x => (x, ([] : List α)) := by
+  induction xs with
+  | nil => rfl
+  | cons x xs ih => simp only [withSols, ih, List.map_cons]
+
 end Verif.C13
